@@ -87,7 +87,9 @@ func isTrustedProxy(remoteIP *string, trustedProxyCIDRs []*net.IPNet) bool {
 	if ip == nil {
 		return false
 	}
-	if len(trustedProxyCIDRs) == 0 {
+	if trustedProxyCIDRs == nil {
+		// No CIDR list configured at all: every peer may supply forwarded headers.
+		// A configured list without a single usable entry (non-nil, empty) trusts nobody.
 		return true
 	}
 	for _, cidr := range trustedProxyCIDRs {
